@@ -2,4 +2,5 @@ INIT Init
 NEXT Next
 INVARIANT CtxMirrorsStack
 INVARIANT DoneMeansUnwound
+INVARIANT PropsHold
 INVARIANT Emit
